@@ -263,6 +263,10 @@ BLOCKS = [
     "r = '''\n'''",
     "class K:\n    v = '''k\n  v'''\nr = K.v",
     "r = (1 +\n2)",
+    'r = """first\n   has \'\'\' inside\n      third line\n"""',
+    "r = \'\'\'first\n   has \"\"\" inside\n      third\n\'\'\'\nz = 1",
+    'if True:\n    r = """a\n  \'\'\'\n    b"""\nelse:\n    r = 0',
+    'r = """one \'\'\' two \'\'\' three\n   next"""',
 ]
 
 
